@@ -14,7 +14,9 @@ Record cls := {
   c_mixin : bool;          (* subclass of DataClassDictMixin: compiled by itself at class creation;
                               false: plain dataclass, compiled by the first builder that meets it *)
   c_cfgd : option ns; c_cfg : ns; c_sort : bool; c_flags : flags;
-  c_fields : list (fplan * list nat);
+  c_fields : list (fplan * list nat);   (* inherited fields first; options above are the RESOLVED ones
+                                           (a subclass without Config of its own inherits its parent's) *)
+  c_parent : option nat;                (* the dataclass it derives from *)
 }.
 
 (* pack_dataclass: the builder created for a nested class that has no to_dict yet receives
@@ -77,9 +79,18 @@ Section Table.
     | [] => None
     | m :: r => let fl := both outer (flags_c m) in
                 if subflags fl (flags_c cid) then Some fl else pick_impl outer r cid end.
-  (* reference: the flags enabled on both the outer class and the class of the value *)
+  (* the value conforms to the field: its class is a member or derives from one *)
+  Fixpoint conforms_fuel (fuel: nat) (cid: nat) (members: list nat) : bool :=
+    existsb (Nat.eqb cid) members ||
+    match fuel, nth_error ct cid with
+    | S n, Some c => match c.(c_parent) with Some p => conforms_fuel n p members | None => false end
+    | _, _ => false end.
+  Definition conforms (cid: nat) (members: list nat) : bool := conforms_fuel (List.length ct) cid members.
+
+  (* reference: the flags enabled on both the outer class and the CLASS OF THE VALUE (which may be a
+     subclass of the declared member) *)
   Definition pick_spec (outer: flags) (members: list nat) (cid: nat) : option flags :=
-    if existsb (Nat.eqb cid) members then Some (both outer (flags_c cid)) else None.
+    if conforms cid members then Some (both outer (flags_c cid)) else None.
 
   (* flags named in the call of the nested method *)
   Definition pick (spec: bool) (outer: flags) (members: list nat) (cid: nat) : option flags :=
